@@ -36,6 +36,7 @@ type schedCtl struct {
 	schedule   []int
 	pos        int
 	done       map[int]bool
+	running    int         // the thread that was granted a step and has not reached its next yield (or its end) yet; -1 = none
 	trace      [][2]string // thread, label
 	freeRun    atomic.Bool
 	infeasible atomic.Bool
@@ -66,8 +67,23 @@ func schedYield(label string) {
 		return // not a scenario thread (tickers, callbacks on other goroutines)
 	}
 	start := time.Now()
+	c.mu.Lock()
+	if c.running == t {
+		c.running = -1 // this thread's granted section is over: it is parked again
+	}
+	c.mu.Unlock()
 	for !c.freeRun.Load() {
 		c.mu.Lock()
+		if c.running != -1 { // one section at a time: the previous grant is still executing
+			c.mu.Unlock()
+			if time.Since(start) > 400*time.Millisecond {
+				c.infeasible.Store(true)
+				c.freeRun.Store(true)
+				return
+			}
+			time.Sleep(5 * time.Microsecond)
+			continue
+		}
 		for c.pos < len(c.schedule) && c.done[c.schedule[c.pos]] {
 			c.pos++ // entries of finished threads are skipped
 		}
@@ -78,6 +94,7 @@ func schedYield(label string) {
 		}
 		if c.schedule[c.pos] == t {
 			c.pos++
+			c.running = t
 			c.trace = append(c.trace, [2]string{strconv.Itoa(t), label})
 			c.mu.Unlock()
 			return
@@ -95,7 +112,7 @@ func schedYield(label string) {
 
 // runThreads starts the scenario threads, lets the controller drive them through the schedule and waits for all of them
 func runThreads(schedule []int, threads []func()) (*schedCtl, bool) {
-	c := &schedCtl{gids: map[int64]int{}, schedule: schedule, done: map[int]bool{}}
+	c := &schedCtl{gids: map[int64]int{}, schedule: schedule, done: map[int]bool{}, running: -1}
 	activeCtl.Store(c)
 	defer activeCtl.Store(nil)
 	var wg sync.WaitGroup
@@ -111,6 +128,9 @@ func runThreads(schedule []int, threads []func()) (*schedCtl, bool) {
 			defer func() {
 				c.mu.Lock()
 				c.done[i] = true
+				if c.running == i {
+					c.running = -1
+				}
 				c.mu.Unlock()
 			}()
 			f()
